@@ -1253,7 +1253,8 @@ MANIFEST = {
             "exactly one terminal YIELD/ERROR per request id with the right payload / URI class, "
             "progressive YIELDs only before it and only when requested, endpoint arguments exact, "
             "nothing for unknown ids but a protocol error, no escaping exception."
-            " The same obligations on the encoded-payload reply paths (payload codec active, INVOCATION encoded; replies opened by the harness) and for an exception class registered with define(cls, uri).",
+            " The same obligations on the encoded-payload reply paths (payload codec active, INVOCATION encoded; replies opened by the harness) and for an exception class registered with define(cls, uri)."
+            " Pattern-based registrations: details.procedure is the procedure the INVOCATION names.",
     "note": "Trusted: ref/rawsocket.py, ref/ws_frames.py, env transports, autobahn serializers for "
             "payload decoding. ERROR URIs for cancel / un-serializable / oversized are three-valued "
             "(observed URIs are recorded in the evidence). Transport loss mid-invocation and payload "
